@@ -230,3 +230,25 @@ func H_C11_exclusion_keeps_the_order_of_what_it_keeps() {
 	vAssert("running-header-removed", !strings.Contains(excl, "Quarterly Report"))
 	vReach("end")
 }
+
+// H_C11_every_page_of_a_long_document: marginal repetition is removed from every page, however many pages there are.
+//
+//symgo:harness prop=C11 kernel=K4b-long-document noreplay=1
+//symgo:redirect (*github.com/tsawler/tabula/reader.Reader).PageCount vStubPageCount
+//symgo:redirect (*github.com/tsawler/tabula/reader.Reader).GetPage vStubGetPageIdx
+//symgo:redirect (*github.com/tsawler/tabula/reader.Reader).ExtractTextFragments vStubFragmentsIdx
+//symgo:redirect (*github.com/tsawler/tabula/reader.Reader).Close vStubClose
+//symgo:desc stub document of 8, 50, 53 or 120 pages (enumerated; reader cut): a title page, then pages with the same running header and footer; the last page, the page before it, or page 2 selected (enumerated); ExcludeHeadersAndFooters().Text(): neither the header nor the footer text appears and the page's body text does
+func H_C11_every_page_of_a_long_document() {
+	vPageCount = []int{8, 50, 53, 120}[vAnyIntIn(0, 3)]
+	vCloseCalls, vCloseErr = 0, false
+	vHeaderText = "Running Header"
+	pg := []int{vPageCount, vPageCount - 1, 2}[vAnyIntIn(0, 2)]
+	e := &Extractor{format: format.PDF, reader: &reader.Reader{}, readerOpened: true, ownsReader: false, options: defaultOptions()}
+	out, _, err := e.Pages(pg).ExcludeHeadersAndFooters().Text()
+	vAssert("no-error", err == nil)
+	vAssert("header-removed-from-every-page", !strings.Contains(out, "Running Header"))
+	vAssert("footer-removed-from-every-page", !strings.Contains(out, "Confidential Footer"))
+	vAssert("body-kept", strings.Contains(out, "Body text of page"))
+	vReach("end")
+}
